@@ -1467,6 +1467,13 @@ class AggregateFunction(Function):
         self._include_filter = True
         self._filters = [*self._filters, *filters]
 
+    def nodes_(self) -> Iterator[NodeT]:
+        yield from super().nodes_()
+        # the FILTER(WHERE ...) criteria refer to columns too
+        for criterion in self._filters:
+            if isinstance(criterion, Node):
+                yield from criterion.nodes_()
+
     def get_filter_sql(self, ctx: SqlContext) -> str:  # type:ignore[return]
         if self._include_filter:
             criterions = Criterion.all(self._filters).get_sql(ctx)  # type:ignore[attr-defined]
@@ -1504,6 +1511,13 @@ class AnalyticFunction(AggregateFunction):
     def orderby(self, *terms: Any, **kwargs: Any) -> "Self":  # type:ignore[return]
         self._include_over = True
         self._orderbys = [*self._orderbys, *((term, kwargs.get("order")) for term in terms)]
+
+    def nodes_(self) -> Iterator[NodeT]:
+        yield from super().nodes_()
+        # so do the PARTITION BY / ORDER BY terms of the window
+        for term in [*self._partition, *(field for field, _ in self._orderbys)]:
+            if isinstance(term, Node):
+                yield from term.nodes_()
 
     def _orderby_field(self, field: Field, orient: Order | None, ctx: SqlContext) -> str:
         if orient is None:
@@ -1770,6 +1784,10 @@ class AtTimezone(Term):
         self.field = Field(field) if not isinstance(field, Field) else field
         self.zone = zone
         self.interval = interval
+
+    def nodes_(self) -> Iterator[NodeT]:
+        yield self  # type:ignore[misc]
+        yield from self.field.nodes_()
 
     def get_sql(self, ctx: SqlContext) -> str:
         sql = "{name} AT TIME ZONE {interval}'{zone}'".format(
